@@ -89,6 +89,7 @@ def bytes_of(it, r):
 
 class WriterOracles(Oracles):
     """captures everything written through io::Write / fmt"""
+    interpret_fmt = True
 
     def __init__(self, script=()):
         Oracles.__init__(self, script)
@@ -96,6 +97,10 @@ class WriterOracles(Oracles):
 
     def render_arg(self, it, a):
         v = a.val
+        n_ = 0
+        while isinstance(v, Ref) and n_ < 3 and not isinstance(it.read(v.cell, v.path), (Arr, VecV)):
+            v = it.read(v.cell, v.path)     # a reference to a modelled value (an id, a node's sequence …)
+            n_ += 1
         if isinstance(v, Int) and v.is_conc():
             return str(v.val)
         if isinstance(v, VecV) and all(isinstance(e, Int) and e.is_conc() for e in v.elems):
@@ -133,6 +138,23 @@ class WriterOracles(Oracles):
                 return "extra_key"
         if isinstance(v, Int):
             return "7"
+        if isinstance(v, Adt) and a.kind in ("display", "debug"):
+            # a value of one of the crate's own types with a hand-written Display / Debug impl (a private record type of the writer …):
+            # what that impl writes, obtained by interpreting it with this same capture
+            tr = "Display" if a.kind == "display" else "Debug"
+            F_ = it.facts
+            cands = [b for k_, b in F_.fns.items() if k_.startswith("<" + v.name) and k_.endswith("std::fmt::%s>::fmt" % tr) and not b.get("derived")]
+            if len(cands) == 1:
+                saved = self.out
+                self.out = []
+                try:
+                    r_ = it.call_body(cands[0], [Ref(Cell(v, "fmt-self")), Ref(Cell(Opaque("Formatter", {"fmt"}), "f"))])
+                    txt = "".join(self.out)
+                finally:
+                    self.out = saved
+                if isinstance(r_, Adt) and r_.variant == 0:
+                    return txt
+                return "\u0001<%s of %s returned %r>" % (tr, v.name, r_)
         return "\u0001<unclassified %r>" % (v,)
 
     def emit(self, it, fa):
@@ -170,6 +192,18 @@ class WriterOracles(Oracles):
             for p_ in args[0].parts:
                 txt += p_[1] if p_[0] == "lit" else self.render_arg(it, p_[1])
             return Opaque("std::string::String", {"formatted"}, {"text": txt})
+        if name == "fmt" and tr.split("::")[-1] in ("Display", "Debug") and len(args) == 2 and isinstance(recv(it, args[0]), (Opaque, Int)):
+            # `fmt::Display::fmt(&x, f)` called directly on a value the harness models (a node's sequence, an id …): same as `write!(f, "{}", x)`
+            self.out.append(self.render_arg(it, FmtArg("display" if tr.endswith("Display") else "debug", recv(it, args[0]))))
+            return Adt(RESULT, 0, [Tup([])])
+        if path.startswith("core::fmt::Formatter") or path.startswith("std::fmt::Formatter"):
+            # writes through a Formatter (inside a Display / Debug impl that is being interpreted)
+            if name == "write_fmt" and len(args) == 2 and isinstance(args[1], FmtArgs):
+                self.emit(it, args[1])
+                return Adt(RESULT, 0, [Tup([])])
+            if name in ("write_str", "write_char", "pad") and len(args) == 2:
+                self.out.append(self.render_arg(it, FmtArg("display", args[1])))
+                return Adt(RESULT, 0, [Tup([])])
         if name == "write_fmt" and (tr.endswith("io::Write") or tr.endswith("fmt::Write")):
             fa = args[1]
             if isinstance(fa, FmtArgs):
